@@ -6,6 +6,7 @@ import Ptn.C08.Value
 import Ptn.C08.SwapValue
 import Ptn.C08.StepValue
 import Ptn.C08.LoopValue
+import Ptn.C08.GlobalValue
 /-! Property theorems for C08 (a TEBD step is the ordered product of its Trotter gates and SWAPs).
 Only property theorems and non-vacuity examples live here; helper lemmas are in `Lemmas.lean`
 (splitting, SWAP), `LegLemmas.lean` and `Stages.lean` (leg bookkeeping).
@@ -587,6 +588,66 @@ theorem tebd_step_loop_value {R : Type} [CommSemiring R] (t : List TNode) (hwf :
         (∀ ψ ψ' : Asg SLeg → R, LoopChain dim G cur g ops ψ ψ' → ψ' = actRun dim G cur g ops ψ) := by
   obtain ⟨t', rec', h1, h2⟩ := tebd_step_value (R := R) t hwf ops hv cur rc g hinv
   refine ⟨t', rec', h1, fun dim G hG => ⟨(h2 dim G hG).1, fun ψ ψ' h => loop_chain_value h⟩⟩
+
+
+/-! ### (ix) value level in ONE label space: the local program renamed into the global labels
+
+`two_site_gate_loop_value` states the program of the local model in the labels `Leg` and the network in the labels
+`VLeg`.  With the relabelling theorem (`Ptn/Common/EinsumRename.lean`: `Expr.rn_eval_map`, `rn_sumPairs_map`,
+`Expr.rn_swf_map` for an injective renaming that keeps the dimensions) both are statements about ONE program in
+the global labels. -/
+
+open Ptn.Ein in
+/-- **Two-site gate, program and network in one label space.**  Pair `P` / `C` as in `two_site_gate_legs`, either
+naming order.  `pairGlob p c K : Leg → VLeg` (legs of `P` owned by `p`, legs of `C` owned by `c`, physical and gate
+legs shared) is injective, the model completes with `r`, and `PairGlobalClause` holds (spelled out at its
+definition in `GlobalValue.lean`): for ALL local tensor values `TP`, `TC`, `G` the program `E` of the local model
+(`Built`: the model's own `tensordot` calls) renamed by `pairGlob` IS the explicit program over
+`legs(P).map (glob p)`, `legs(C).map (glob c)`, the shared gate legs, the bond `(glob p (nb c), glob c (nb p))`
+and the pairs `gatePairs r.binds` - the labels and pairs of the network-level statement; it has pairwise distinct
+labels, the (renamed) absorbed legs as free legs, is strongly well-formed for local tensors, evaluates at `σ'` to
+the local value at `σ' ∘ pairGlob` and to `Σ_gp G'·Σ_bond TP'·TC'`; and if THE VALUE OF THIS PROGRAM factorises
+exactly over the new bond into `U`, `V` (contract of `split_node_svd`, truncation disabled) the network with `U`,
+`V` in the place of the program's leaves `TP'`, `TC'` has the value `Σ_in G'[out; in] · ψ[…, in, …]`.  By
+`pairGlob_pull_surj` the pulled tensors `TP'`, `TC'`, `G'` range over all global tensors on the renamed legs. -/
+theorem two_site_gate_loop_value_global {R : Type} [CommSemiring R] (p c : Nat) (pp : Option Nat)
+    (A B K : List Nat) (oP oC : Nat) (h : PairOK p c pp A B K) :
+    Function.Injective (pairGlob p c K) ∧
+    (∃ r, twoSite p (mkNode p pp (A ++ c :: B) oP) c (mkNode c (some p) K oC) = some r ∧
+      PairGlobalClause R p c pp A B K oP oC p c r) ∧
+    (∃ r, twoSite c (mkNode c (some p) K oC) p (mkNode p pp (A ++ c :: B) oP) = some r ∧
+      PairGlobalClause R p c pp A B K oP oC c p r) := by
+  have hne : p ≠ c := h.p_notin.2.2.2
+  refine ⟨pairGlob_injective p c K, ⟨_, twoSite_parentFirst oP oC h, ?_⟩, ⟨_, twoSite_childFirst oP oC h, ?_⟩⟩
+  · exact pair_global_core h oP oC (twoSite_parentFirst oP oC h) (contr_perm_parentFirst p c pp A B K oP oC) p c
+      (pairGlob_gatePairs p c K _ _ (physL2_phys p oP c oC)) (nodup_gate_legs p c oP oC hne)
+  · exact pair_global_core h oP oC (twoSite_childFirst oP oC h) (contr_perm_childFirst p c pp A B K oP oC) c p
+      (pairGlob_gatePairs p c K _ _ (physL2_phys c oC p oP)) (nodup_gate_legs c p oC oP (fun e => hne e.symm))
+
+open Ptn.Ein in
+/-- every global tensor that reads only renamed legs is the pull of a local one (so the quantifier over local
+tensors in `PairGlobalClause` loses nothing) -/
+theorem two_site_global_tensors_covered {R : Type} (p c : Nat) (K : List Nat) (legs : List Leg)
+    (T' : Asg VLeg → R) (hT : DependsOn (· ∈ legs.map (pairGlob p c K)) T') :
+    ∃ T : Asg Leg → R, rn_pull (pairGlob p c K) T = T' :=
+  ⟨_, pairGlob_pull_surj p c K legs T' hT⟩
+
+open Ptn.Ein in
+/-- non-vacuity of the exact-split hypothesis of `PairGlobalClause`: for EVERY program renamed by `pairGlob` and
+every `dim` with a new bond of dimension one there are `U`, `V` with `value = Σ_newbond U·V` -/
+example {R : Type} [CommSemiring R] (p c : Nat) (K : List Nat) (e : Expr Leg R) (dim : VLeg → Nat) (x y : Nat)
+    (hd : dim (glob x Leg.bond) = 1) :
+    ∃ U V : Asg VLeg → R, ∀ τ, (e.rn_map (pairGlob p c K)).eval dim τ =
+      sumPairs dim [(glob x Leg.bond, glob y Leg.bond)] (fun ρ => U ρ * V ρ) τ :=
+  pairGlob_split_exists p c K e dim x y hd
+
+open Ptn.Ein in
+/-- concrete renaming for the pair `1 — 2` (children of `2`: `[7]`): the bond and a gate pair in global labels -/
+example : PairOK 1 2 (some 0) [5] [6] [7] ∧
+    rn_pairs (pairGlob 1 2 [7]) [(Leg.nb 2, Leg.nb 1), (Leg.phys 1 0, Leg.gin 0), (Leg.nb 7, Leg.nb 5)] =
+      [(VLeg.own 1 (.nb 2), VLeg.own 2 (.nb 1)), (.shared (.phys 1 0), .shared (.gin 0)),
+       (VLeg.own 2 (.nb 7), VLeg.own 1 (.nb 5))] := by
+  refine ⟨by unfold PairOK; decide, by decide⟩
 
 /-! ### non-vacuity -/
 
